@@ -146,3 +146,53 @@ Example C13_example :
                 [4607182418800017408; 13830554455654793216; 4602678819172646912] in
   outs = [120; 64; 128] /\ jit_ok 4626322717216342016 [100; 100; 100] outs = true.
 Proof. vm_compute. split; reflexivity. Qed.
+
+(* The bound the harness checks on the composed trigger (composed_bound_ok) is met whenever the
+   difference at the end of the previous period obeys C13_bounded's bound, the current period has
+   emitted at most its own value on either side, and that value is at most (R + B)(1 + j) + 1 on the
+   jittered side (rate plus carried balance, varied by at most the jitter, rounded): *)
+Theorem C13_composed_bound : forall jn jd R dprev part_j part_p out,
+  0 <= jn < jd -> 0 <= R ->
+  (jd - jn) * Z.abs dprev <= jn * R + jd ->          (* C13_bounded at the end of the previous period *)
+  0 <= part_p <= R -> 0 <= part_j <= out ->          (* what the current period has emitted so far *)
+  (jd - jn) * jd * out <= (jd - jn) * R * (jd + jn) + (jd + jn) * (jn * R + jd) + jd * (jd - jn) ->
+  composed_bound_ok jn jd R (Z.abs (dprev + part_p - part_j)) = true.
+Proof.
+  intros jn jd R dprev pj pp out Hj HR Hd Hp Hq Ho. unfold composed_bound_ok. apply Z.leb_le.
+  assert (A : Z.abs (dprev + pp - pj) <= Z.abs dprev + Z.max pp pj) by lia.
+  assert (0 < jd - jn) by lia. assert (0 < jd) by lia.
+  assert (B : (jd - jn) * jd * Z.abs (dprev + pp - pj) <= (jd - jn) * jd * (Z.abs dprev + Z.max pp pj)).
+  { apply Z.mul_le_mono_nonneg_l; [nia|exact A]. }
+  assert (C : (jd - jn) * jd * Z.abs dprev <= jd * (jn * R + jd)) by nia.
+  assert (D : (jd - jn) * jd * Z.max pp pj <= (jd - jn) * R * (jd + jn) + (jd + jn) * (jn * R + jd) + jd * (jd - jn)).
+  { destruct (Z.max_spec pp pj) as [[_ ->]|[_ ->]].
+    - assert ((jd - jn) * jd * pj <= (jd - jn) * jd * out) by (apply Z.mul_le_mono_nonneg_l; nia). lia.
+    - assert ((jd - jn) * jd * pp <= (jd - jn) * jd * R) by (apply Z.mul_le_mono_nonneg_l; nia). nia. }
+  nia.
+Qed.
+Print Assumptions C13_composed_bound.
+
+(* ... and the last premise is what every admissible jitter step gives when the carried balance
+   obeys C13_bounded's bound and the rate is at most R: *)
+Theorem C13_step_upper : forall jn jd R bal rate r,
+  0 <= jn < jd -> 0 <= rate <= R ->
+  (jd - jn) * Z.abs bal <= jn * R + jd ->
+  jitter_step_ok jn jd bal rate r ->
+  (jd - jn) * jd * r <= (jd - jn) * R * (jd + jn) + (jd + jn) * (jn * R + jd) + jd * (jd - jn).
+Proof.
+  intros jn jd R bal rate r Hj Hr Hb Hs. unfold jitter_step_ok in Hs.
+  assert (0 < jd - jn) by lia.
+  destruct (rate + bal <? 0) eqn:E.
+  - subst r. rewrite Z.mul_0_r.
+    assert (0 <= (jd - jn) * R * (jd + jn)) by (apply Z.mul_nonneg_nonneg; [apply Z.mul_nonneg_nonneg|]; lia).
+    assert (0 <= (jd + jn) * (jn * R + jd)) by (apply Z.mul_nonneg_nonneg; [lia|]; assert (0 <= jn * R) by (apply Z.mul_nonneg_nonneg; lia); lia).
+    assert (0 <= jd * (jd - jn)) by (apply Z.mul_nonneg_nonneg; lia). lia.
+  - apply Z.ltb_ge in E. destruct Hs as [Hr0 Hs].
+    assert (A0 : jd * (r - (rate + bal)) <= jd * Z.abs (r - (rate + bal))) by (apply Z.mul_le_mono_nonneg_l; lia).
+    assert (A : jd * r <= (jd + jn) * (rate + bal) + jd) by nia.
+    assert (B : (jd - jn) * (rate + bal) <= (jd - jn) * R + (jn * R + jd)) by nia.
+    assert (C : (jd - jn) * (jd * r) <= (jd - jn) * ((jd + jn) * (rate + bal) + jd)) by (apply Z.mul_le_mono_nonneg_l; lia).
+    assert (D : (jd + jn) * ((jd - jn) * (rate + bal)) <= (jd + jn) * ((jd - jn) * R + (jn * R + jd))) by (apply Z.mul_le_mono_nonneg_l; lia).
+    nia.
+Qed.
+Print Assumptions C13_step_upper.
